@@ -100,7 +100,7 @@ def process_layer(dag: DAGCircuit) -> tuple[list[DAGOpNode], list[DAGOpNode], li
         # Keep ONLY barriers with label "SAMPLE_OBSERVABLES" (case-insensitive). Remove all other barriers.
         if name == "barrier":
             label = getattr(node.op, "label", None)
-            if label is not None and str(label).upper() == "SAMPLE_OBSERVABLES":
+            if label is not None and str(label).strip().upper() == "SAMPLE_OBSERVABLES":
                 measure_barriers.append(node)
             else:
                 dag.remove_op_node(node)
